@@ -70,8 +70,8 @@ class C16(Check):
     ASSUMPTIONS = ['zlib / zstandard C libraries are trusted as codecs; the property is about rxsci\'s streaming wrappers',
                    'reference decoders: gzip.decompress and zstandard.ZstdDecompressor.stream_reader']
     ANCHORS = ['rxsci/compression/z.py', 'rxsci/compression/zstd.py']
-    REQUIRED_TAGS = ['gzip', 'zstd', 'empty-list', 'empty-chunk-in-input', 'over-one-buffer', 'rand', 'zeros', 'multi-MiB-compressible', 'over-4MiB', 'compressed-size-is-a-block-size', 'mixed-compressibility', 'thousands-of-small-chunks']
-    REQUIRED_OBSERVED = ['truncations_checked', 'rechunkings_checked', 'reference_decodes', 'compressed_streams_of_exactly_a_block_size']
+    REQUIRED_TAGS = ['gzip', 'zstd', 'empty-list', 'empty-chunk-in-input', 'over-one-buffer', 'rand', 'zeros', 'multi-MiB-compressible', 'over-4MiB', 'compressed-size-is-a-block-size', 'mixed-compressibility', 'thousands-of-small-chunks', 'chunks-as-bytearray', 'chunks-as-memoryview']
+    REQUIRED_OBSERVED = ['triples_of_staggered_subscriptions', 'truncations_checked', 'rechunkings_checked', 'reference_decodes', 'compressed_streams_of_exactly_a_block_size']
 
     _ops = {}
 
@@ -331,6 +331,34 @@ class C16(Check):
             if got != data:
                 out.fail('decompress-content-differs', rechunk=r, got_len=len(got), want_len=len(data),
                          first_diff=next((i for i, (a, b) in enumerate(zip(got, data)) if a != b), min(len(got), len(data))))
+        # the same chunks as bytearray objects / as memoryview slices of one buffer, each consumed twice as the same objects: same
+        # content in both directions, and the chunks are left as they were handed over
+        ct = chunking.BYTES_LIKE[(len(chunks) + len(data) + len(comp)) % 3]
+        if ct != 'bytes' and len(data) <= (1 << 20) and not out.failures:
+            out.tags.append('chunks-as-' + ct)
+            alt = chunking.bytes_like(chunks, ct)
+            before = chunking.frozen(alt)
+            for turn in (1, 2):
+                g = subscribe(rx.from_(alt).pipe(comp_op()), Snap())
+                out.observed['bytes_like_runs'] += 1
+                if chunking.frozen(alt) != before:
+                    return out.fail('compress-changed-the-chunks-it-was-given', chunk_type=ct)
+                try:
+                    back = reference_decode(codec, b''.join(bytes(x) for x in g.out)) if g.err is None and g.done else None
+                except Exception as e:      # noqa: BLE001
+                    back = repr(e)
+                if back != data:
+                    return out.fail('compress-mismatch-on-%s-chunks' % ct, subscription=turn, error=repr(g.err), got=back if isinstance(back, str) else None,
+                                    want_len=len(data))
+            alt = chunking.bytes_like(self._rechunk(comp, c.out, case['rechunks'][0]) if case['rechunks'] else list(c.out), ct)
+            before = chunking.frozen(alt)
+            for turn in (1, 2):
+                g = subscribe(rx.from_(alt).pipe(decomp_op()), Snap())
+                out.observed['bytes_like_runs'] += 1
+                if chunking.frozen(alt) != before:
+                    return out.fail('decompress-changed-the-chunks-it-was-given', chunk_type=ct)
+                if g.err is not None or not g.done or b''.join(bytes(x) for x in g.out) != data:
+                    return out.fail('decompress-mismatch-on-%s-chunks' % ct, subscription=turn, error=repr(g.err), got_len=sum(len(x) for x in g.out), want_len=len(data))
         if len(data) < 8192 and not out.failures:
             from ..progs import twin_subscriptions
             t = twin_subscriptions(lambda src: src.pipe(decomp_op()), list(c.out), out, 'decompress', lambda xs: b''.join(xs))
@@ -339,6 +367,15 @@ class C16(Check):
             t = twin_subscriptions(lambda src: src.pipe(comp_op()), chunks, out, 'compress', lambda xs: reference_decode(codec, b''.join(xs)))
             if t is not None and t != data:
                 out.fail('compress-differs-with-two-live-subscribers', got_len=len(t), want_len=len(data))
+            if not out.failures:
+                from ..progs import staggered_subscriptions
+                t = staggered_subscriptions(lambda src: src.pipe(comp_op()), chunks, out, 'compress', lambda xs: reference_decode(codec, b''.join(xs)))
+                if t is not None and t != data:
+                    out.fail('compress-differs-with-staggered-streams-through-one-operator', got_len=len(t), want_len=len(data))
+                t = staggered_subscriptions(lambda src: src.pipe(decomp_op()), chunking.cut(comp, [c for c in (1, len(comp) // 3, len(comp) // 2, len(comp) - 1) if 0 < c < len(comp)]),
+                                            out, 'decompress', lambda xs: b''.join(xs))
+                if t is not None and t != data:
+                    out.fail('decompress-differs-with-staggered-streams-through-one-operator', got_len=len(t), want_len=len(data))
         # truncations
         truncs = case['truncs']
         if truncs == 'all':
